@@ -325,7 +325,40 @@ def empty_reduce(model, R, modules=('junctors',)):
     R.floor('EMPTY-REDUCE', 2)
 
 
+MUTATORS = ('append', 'extend', 'insert', 'remove', 'pop', 'clear', 'sort', 'reverse', '__setitem__', '__delitem__', '__iadd__', '__imul__')
+
+
+def render_is_readonly(model, R):
+    """Printing the result leaves it unchanged: ``tostring`` / ``__str__`` / ``__repr__`` of the Relations list neither assign
+    into ``self[...]`` nor call a list mutator on it (re-binding the *name* self to a filtered view is fine)."""
+    cls = model.cls('junctors.Relations')
+    n = 0
+    for name in ('tostring', '__str__', '__repr__'):
+        f = cls.methods.get(name)
+        if f is None or not f.params:
+            continue
+        me = f.params[0]
+        rebound_at = min([s.lineno for s in walk(f.body) if isinstance(s, ast.Assign) and any(name_is(t, me) for t in s.targets)] or [10 ** 9])
+        for node in walk(f.body):
+            hit = None
+            if isinstance(node, (ast.Assign, ast.AugAssign, ast.Delete)):
+                targets = node.targets if isinstance(node, (ast.Assign, ast.Delete)) else [node.target]
+                for t in targets:
+                    if isinstance(t, ast.Subscript) and name_is(t.value, me):
+                        hit = t
+                    if isinstance(node, ast.AugAssign) and name_is(t, me):
+                        hit = t
+            if isinstance(node, ast.Call) and isinstance(node.func, ast.Attribute) and name_is(node.func.value, me) and node.func.attr in MUTATORS:
+                hit = node
+            if hit is not None and getattr(hit, 'lineno', 0) <= rebound_at:
+                n += 1
+                R.bad('READ-ONLY', f, node, f'{name} does not modify the list it prints', 'no assignment into self[...] and no list mutator on self', src(node)[:80],
+                      extra={'consequence': 'after printing (e.g. with exclude_orthogonal) entries are gone from the result itself'})
+        R.ok('READ-ONLY', f, f.node, f'{name} does not modify the list it prints')
+
+
 def run(model, R):
+    R.guard('READ-ONLY', None, 'rendering', render_is_readonly, model, R)
     R.guard('TABLE', None, 'tables', tables, model, R)
     R.guard('DISPATCH', None, 'RelationMeta', meta_rules, model, R)
     R.guard('PAIRING', None, 'Relations.__init__', relations_init, model, R)
